@@ -432,7 +432,8 @@ Case(t, e) ==
   IN [e |-> e, env |-> EnvShow(env), err |-> r.err, oos |-> r.oos,
       out |-> [c \in 1..Len(Ctxs) |-> Show(CtxOutcome(Ctxs[c], t, env, r, {}))],
       devs |-> [d \in 1..Len(DevSets) |->
-                 LET rx == IF d = 1 THEN rd ELSE Eval(t, env, FALSE, DevSets[d], Fuel) IN
+                 \* when nothing triggered under the full set, nothing can under a subset
+                 LET rx == IF d = 1 THEN rd ELSE IF rd.used = {} THEN r ELSE Eval(t, env, FALSE, DevSets[d], Fuel) IN
                  [c \in 1..Len(Ctxs) |-> Show(CtxOutcome(Ctxs[c], t, env, rx, DevSets[d]))]],
       \* laws of the contract itself
       law |-> /\ rn.env = env                              \* no-evaluation mode never writes
